@@ -6,6 +6,9 @@
        (laz: 0 = the points are not flagged as compressed; 1 | 2 | 3 = LAZ-flagged and building the LAZ point reader raises a
         LaspyException | another Exception | a BaseException that is not one)
      P<n>  S<pos>:<whence>  A (read)  Q (.point_source)  W (write/append points)  Bl | Bo (with-body raises Laspy / other)
+     G (the handle is dropped without close() and collected)
+     R<r|w|a><T|F closefd>:<n|rT|rF|eT|eF> (close() again on an object that was closed before; its point source: none | real | empty, given the source or not)
+     U<w|a> (write_points / append_points on an object that was closed before)
      X (exit)  C (close)  D<outcome> (LasData.write)  L<T|F closefd>:<outcome>:<finfo> (laspy.read)  Z (caller rewinds)
      F<l|o|b> (an operation on the handle raises: the stream failed under it; class Laspy / other Exception / not an Exception)
      Y<x|c><j>:<l|o|b> (with-exit | close() and the j-th fallible statement of the close method raises)
@@ -83,6 +86,12 @@ let event_of t =
             | [""; o; f] | [o; f] -> EReadLas (bool_of_char t.[1], finfo_of f, outcome_of o)
             | _ -> failwith ("readlas " ^ t))
   | 'Z' -> ERewind (if String.length t > 1 then z_of_string (rest t 1) else Z0)
+  | 'G' -> EDrop
+  | 'R' -> (* R<mode><T|F closefd>:<n | rT | rF | eT | eF: the point source the object has> *)
+    let ps = (match rest t 4 with "n" -> PNone | "rT" -> PReal true | "rF" -> PReal false | "eT" -> PNull true | "eF" -> PNull false
+                                | x -> failwith ("point source " ^ x)) in
+    EReclose (mode_of t.[1], bool_of_char t.[2], ps)
+  | 'U' -> EUseClosed (mode_of t.[1])
   | _ -> failwith ("event " ^ t)
 
 let tok_of_res = function RDone -> "ok" | RRaised XLaspy -> "xl" | RRaised XOther -> "xo" | RRaised XBase -> "xb" | RIgnored -> "ig"
